@@ -1,13 +1,1 @@
-"""C18 — NFSv4 open and lock state accounting (temporary wrapper: NFSv4.1 part only;
-the maintainer combines it with the NFSv4.0 server)."""
-from lib import vlib
-from checks import nfs41
-
-
-def run(ctx):
-    rule = nfs41.run_parts(ctx)
-    return vlib.finish(ctx, rule=rule, explanation="reference-model conformance of the NFSv4.1 server", exhaustive=True)
-
-
-def replay(ctx, path):
-    return nfs41.replay(ctx, path)
+from checks.nfs import run, replay  # noqa: F401
